@@ -58,6 +58,10 @@ TableProjs == <<
   <<"a", "@", "a", "l", "p", "h", "a">>,
   <<"a", "@", "n", "u", "m">>,
   <<"a", "@", "x">>,
+  <<"a", "@", "f", "i", "x", "e", "d">>,
+  <<"a", "@", "\"", "f", "i", "x", "e", "d", "\"">>,
+  <<"a", "@", "f", "i", "r", "s", "t">>,
+  <<"a", ",", "b", "@", "f", "i", "x", "e", "d">>,
   <<"a", "@", "\"", "a", "l", "p", "h", "a", "\"">>,
   <<"a", "@", "A", "l", "p", "h", "a">>,
   <<"a", "@", "a", "l", "p", "h">>,
